@@ -40,7 +40,10 @@ S(op, a, b) ==
     [] op = "UnboundedSum"      -> Add(a, b)
 
 \* a norm by name, whichever family it belongs to (rule blocks and output variables store either)
-Norm(op, a, b) == IF IsBad(a) \/ IsBad(b) THEN Worst(a, b) ELSE IF op = "none" THEN Err ELSE IF op \in TNorms THEN T(op, a, b) ELSE S(op, a, b)
+\* "Mean" stands for an operator supplied by the user (NormLambda / NormFunction): the arithmetic mean, which is neither
+\* associative nor a norm - the grouping of an antecedent is visible through it
+Norm(op, a, b) == IF IsBad(a) \/ IsBad(b) THEN Worst(a, b) ELSE IF op = "none" THEN Err ELSE IF op = "Mean" THEN Mul(Half, Add(a, b))
+                  ELSE IF op \in TNorms THEN T(op, a, b) ELSE S(op, a, b)
 
 \* same-family pairs: S(a,b) = 1 - T(1-a, 1-b)
 Dual == [AlgebraicProduct |-> "AlgebraicSum", BoundedDifference |-> "BoundedSum", DrasticProduct |-> "DrasticSum",
